@@ -227,6 +227,25 @@ func checkC08(c *Check) {
 						return cl != nil && strings.HasPrefix(callName(&cl.Call), "slices.Index") && len(cl.Call.Args) == 2 && isTable(cl.Call.Args[0])
 					}
 					eq = union(eq, edgesWhere(ar, cBool(isContains), true), edgesWhere(ar, cCmp(token.GEQ, isIndexOf, vConstInt(0)), true))
+					// … or membership in a set that the package initialiser derives from the table (one key per entry,
+					// never written elsewhere)
+					isSetHit := func(v ssa.Value) bool {
+						e, ok := strip(v).(*ssa.Extract)
+						if !ok || e.Index != 1 {
+							return false
+						}
+						lk, ok := e.Tuple.(*ssa.Lookup)
+						if !ok || !lk.CommaOk {
+							return false
+						}
+						ld, ok := strip(lk.X).(*ssa.UnOp)
+						if !ok {
+							return false
+						}
+						g, ok := ld.X.(*ssa.Global)
+						return ok && p.setDerivedFromTable(g, "httpMethods")
+					}
+					eq = union(eq, edgesWhere(ar, cBool(isSetHit), true))
 					eq = union(eq, flagTrueEdges(ar, eq))
 					if ok2, _ := guardedBy(ar, eq, isInstr(al)); !ok2 || len(eq) == 0 {
 						okProv, why = false, "a single-method selection is built without comparing with the httpMethods table"
@@ -1213,4 +1232,124 @@ func iterationSkips(fn *ssa.Function, from, must ssa.Instruction) (bool, string)
 		return true, blockPath(path)
 	}
 	return false, ""
+}
+
+// setDerivedFromTable: the package-level map g is initialised (once, in the package initialiser) by a
+// function literal that inserts exactly the elements of the package-level slice `table` as keys, and no
+// other function stores to g, updates it or deletes from it. Then `_, ok := g[x]` ⇔ x ∈ table.
+func (p *Prog) setDerivedFromTable(g *ssa.Global, table string) bool {
+	if _, isMap := derefT(g.Type()).Underlying().(*types.Map); !isMap {
+		return false
+	}
+	pkg := g.Pkg
+	initFn := pkg.Func("init")
+	if initFn == nil {
+		return false
+	}
+	var builder *ssa.Function
+	nStore := 0
+	okAll := true
+	for _, fn := range p.Funcs() {
+		if fn.Pkg != pkg {
+			continue
+		}
+		allInstrs(fn, func(in ssa.Instruction) {
+			switch x := in.(type) {
+			case *ssa.Store:
+				if x.Addr == ssa.Value(g) {
+					nStore++
+					if fn != initFn {
+						okAll = false
+						return
+					}
+					cl := asCall(x.Val)
+					if cl == nil {
+						okAll = false
+						return
+					}
+					switch f := cl.Call.Value.(type) {
+					case *ssa.Function:
+						builder = f
+					case *ssa.MakeClosure:
+						builder, _ = f.Fn.(*ssa.Function)
+					default:
+						okAll = false
+					}
+				}
+			case *ssa.MapUpdate:
+				if ld, ok := strip(x.Map).(*ssa.UnOp); ok && ld.X == ssa.Value(g) {
+					okAll = false
+				}
+			case ssa.CallInstruction:
+				if callName(x.Common()) == "builtin.delete" || callName(x.Common()) == "builtin.clear" {
+					if ld, ok := strip(x.Common().Args[0]).(*ssa.UnOp); ok && ld.X == ssa.Value(g) {
+						okAll = false
+					}
+				}
+			case *ssa.UnOp:
+				// the map value handed elsewhere (another function could write through it)
+				if x.Op == token.MUL && x.X == ssa.Value(g) && fn != initFn {
+					for _, r := range referrers(x) {
+						switch r.(type) {
+						case *ssa.Lookup, *ssa.Range, *ssa.DebugRef:
+						default:
+							if ci, isC := r.(ssa.CallInstruction); isC && callName(ci.Common()) == "builtin.len" {
+								continue
+							}
+							okAll = false
+						}
+					}
+				}
+			}
+		})
+	}
+	if !okAll || nStore != 1 || builder == nil {
+		return false
+	}
+	// the builder: one MakeMap, returned; every MapUpdate on it has as key the element of a range over the table
+	var mm *ssa.MakeMap
+	nUpd := 0
+	good := true
+	isTableLoad := func(v ssa.Value) bool {
+		ld, ok := strip(v).(*ssa.UnOp)
+		if !ok {
+			return false
+		}
+		tg, ok := ld.X.(*ssa.Global)
+		return ok && tg.Name() == table && tg.Pkg == pkg
+	}
+	allInstrs(builder, func(in ssa.Instruction) {
+		switch x := in.(type) {
+		case *ssa.MakeMap:
+			if mm != nil {
+				good = false
+			}
+			mm = x
+		case *ssa.MapUpdate:
+			nUpd++
+			if mm == nil || strip(x.Map) != ssa.Value(mm) {
+				good = false
+				return
+			}
+			// key = table[i] with i an ascending index over the table (range over a slice)
+			if i, ok := elemIndex(x.Key, isTableLoad); !ok || !ascendingIndex(i) {
+				good = false
+				return
+			}
+			if from, isI := strip(x.Key).(ssa.Instruction); isI {
+				if skip, _ := iterationSkips(builder, from, x); skip {
+					good = false
+				}
+			}
+		case *ssa.Return:
+			if len(x.Results) != 1 || mm == nil || strip(x.Results[0]) != ssa.Value(mm) {
+				good = false
+			}
+		case ssa.CallInstruction:
+			if n := callName(x.Common()); n != "builtin.len" {
+				good = false
+			}
+		}
+	})
+	return good && mm != nil && nUpd == 1
 }
